@@ -45,6 +45,7 @@ func init() {
 }
 
 func runC17(c *an.Ctx) {
+	devModeOnlyLookup(c, "C17.steps")
 	c06indexArgs(c, "C17.steps")
 	p := c.P
 	isSet := c.Fn("C17.total", "(*Runtime).isSet")
